@@ -29,6 +29,15 @@ case "$ID" in
     fi
     RACEARG=(-racebin "$ROOT/bin/zogmon-race-$BINTAG");;
 esac
-"bin/zogmon-$BINTAG" -root "$OUT" -prop "$ID" -tier "$TIER" "${RACEARG[@]}" "$@"; CODE=$?
-if [ -n "${ZOG_REPO:-}" ]; then rm -f "bin/zogmon-$BINTAG" "bin/zogmon-race-$BINTAG" "$BUILDLOG"; fi
+# thorough tier of the schedule-sensitive monitors: every second worker is built with the second toolchain (go1.26.8: swiss-table maps,
+# different scheduler), which widens the field visit orders and interleavings observed. Optional: skipped if that toolchain cannot build.
+ALTARG=()
+if [ "$TIER" = thorough ] && command -v go1.26.8 >/dev/null 2>&1; then
+  case "$ID" in
+    C07|C09) if go1.26.8 build "${MODARGS[@]}" -o "bin/zogmon-alt-$BINTAG" ./cmd/zogmon >>"$BUILDLOG" 2>&1; then ALTARG=(-altbin "$ROOT/bin/zogmon-alt-$BINTAG"); fi;;
+    C08) if go1.26.8 build "${MODARGS[@]}" -race -o "bin/zogmon-alt-$BINTAG" ./cmd/zogmon >>"$BUILDLOG" 2>&1; then ALTARG=(-altbin "$ROOT/bin/zogmon-alt-$BINTAG"); fi;;
+  esac
+fi
+"bin/zogmon-$BINTAG" -root "$OUT" -prop "$ID" -tier "$TIER" "${RACEARG[@]}" "${ALTARG[@]}" "$@"; CODE=$?
+if [ -n "${ZOG_REPO:-}" ]; then rm -f "bin/zogmon-$BINTAG" "bin/zogmon-race-$BINTAG" "bin/zogmon-alt-$BINTAG" "$BUILDLOG"; fi
 exit $CODE
